@@ -108,7 +108,7 @@ theorem be32Encode_be32 (a b c d : UInt8) : be32Encode (be32 a b c d) = [a, b, c
 
 theorem decode_frame (f : Frame) (hid : f.id < 4294967296) (hlen : f.payload.length < 4294967296)
     (s : Bytes) : decode (encodeFrame f ++ s) = (f :: (decode s).1, (decode s).2) := by
-  simp only [encodeFrame, be32Encode, List.cons_append, List.nil_append, List.append_assoc]
+  simp only [encodeFrame, be32Encode, List.cons_append, List.nil_append]
   rw [decode]
   simp only [be32_ofNat _ hid, be32_ofNat _ hlen]
   simp
@@ -179,7 +179,7 @@ theorem decode_sound (s : Bytes) : encodeFrames (decode s).1 ++ (decode s).2 = s
         simp only [encodeFrames, List.flatMap_cons, List.append_assoc] at this ⊢
         rw [this]
         simp only [encodeFrame, hc, be32Encode_be32, List.cons_append, List.nil_append,
-          List.append_assoc, List.take_append_drop]
+          List.take_append_drop]
       · simp only [hc, if_false, encodeFrames]; simp
     | [], _ => rw [decode_short _ (by simp)]; rfl
     | [_], _ => rw [decode_short _ (by simp)]; rfl
